@@ -18,12 +18,16 @@ def tool(name='gwbq', extra=()):
 class Q:
     """One gwbq process on one world file."""
 
-    def __init__(self, wb_text, work, seed=1, name='w'):
+    def __init__(self, wb_text, work, seed=1, name='w', more_worlds=()):
         os.makedirs(work, exist_ok=True)
-        self.path = os.path.join(work, '%s_%s.wb' % (name, hashlib.sha1(wb_text.encode()).hexdigest()[:8]))
-        open(self.path, 'w').write(wb_text)
+        paths = []
+        for t in (wb_text,) + tuple(more_worlds):
+            pth = os.path.join(work, '%s_%s.wb' % (name, hashlib.sha1(t.encode()).hexdigest()[:8]))
+            open(pth, 'w').write(t)
+            paths.append(pth)
+        self.path = paths[0]
         exe, _ = tool()
-        self.p = subprocess.Popen([exe, self.path, str(seed)], stdin=subprocess.PIPE, stdout=subprocess.PIPE,
+        self.p = subprocess.Popen([exe, self.path, str(seed)] + paths[1:], stdin=subprocess.PIPE, stdout=subprocess.PIPE,
                                   stderr=subprocess.DEVNULL, text=True, cwd=work)
         first = self.p.stdout.readline().strip()
         self.construct_error = None if first == 'OK' else first
